@@ -1,7 +1,7 @@
 (* C05 model driver: executes an authentication script on the extracted Coq process model
    (Auth/AuthModel.v, function [step]) and prints one canonical observation line per operation
-   (same format as harness/vdrv_auth.c).  argv: [global_check weak_refused] (0/1 each; default
-   0 0 = the fixed code, 1 1 = the code before notes/fix_C05_*.diff). *)
+   (same format as harness/vdrv_auth.c).  argv: [global_check weak_refused unreg_single] (0/1 each; default
+   0 0 0 = /repo HEAD, 1 1 0 = the code before fixes 1/2, 0 0 1 = HEAD + notes/fix_C05_3.diff). *)
 open Model
 open Vutil
 
@@ -14,9 +14,10 @@ let bytes_of_hex (s : string) : n list =
 let hex_of_bytes (l : n list) : string =
   if l = [] then "-" else String.concat "" (List.map (fun b -> Printf.sprintf "%02x" (int_of_n b)) l)
 
-let cf =
-  if Array.length Sys.argv >= 3 then { cfg_global_check = (Sys.argv.(1) = "1"); cfg_weak_refused = (Sys.argv.(2) = "1") }
-  else cfg_fixed
+(* argv: global_check weak_refused unreg_single (0/1 each); default 0 0 0 = /repo HEAD *)
+let flag i = Array.length Sys.argv > i && Sys.argv.(i) = "1"
+let ext = ref default_ext
+let cf () = { cfg_global_check = flag 1; cfg_weak_refused = flag 2; cfg_unreg_single = flag 3; cfg_ext = !ext }
 
 let p = ref proc_init
 
@@ -29,14 +30,16 @@ let obs () =
   Printf.printf "o err=%s unmod=%s%s\n" (b2s pr.p_err) (b2s pr.p_unmod)
     (String.concat "" (List.map (fun c -> " | " ^ conn_s c) pr.p_conns))
 
-let doit (o : op) = p := step cf !p o; obs ()
+let doit (o : op) = p := step (cf ()) !p o; obs ()
 
 let () =
   let ni s = nat_of_int (int_of_string s) in
   iter_lines stdin (fun line ->
     match split_ws line with
     | [] -> ()
-    | "case" :: _ -> p := proc_init; print_endline line
+    | "case" :: _ -> p := proc_init; ext := default_ext; print_endline line
+    | ["types"; a; b; c; d] -> ext := List.map (fun s -> z_of_int (int_of_string s)) [a; b; c; d]; obs ()
+    | ["setfile"; s; hx] -> doit (OSetFile (ni s, bytes_of_hex hx))
     | "screen" :: w :: h :: name :: "none" :: [] ->
         doit (OScreen { s_pw = PwNone; s_w = n_of_int (int_of_string w); s_h = n_of_int (int_of_string h); s_name = bytes_of_hex name })
     | "screen" :: w :: h :: name :: "list" :: fvo :: pws ->
@@ -51,5 +54,5 @@ let () =
     | ["conn"; s; rev; eof; hx] -> doit (OConn (ni s, rev = "1", bytes_of_hex hx, eof = "1"))
     | ["send"; c; eof; hx] -> doit (OSend (ni c, bytes_of_hex hx, eof = "1"))
     | ["des"; pw; blk] ->
-        Printf.printf "des %s\n" (hex_of_bytes (encrypt_bytes cf (bytes_of_hex pw) (bytes_of_hex blk)))
+        Printf.printf "des %s\n" (hex_of_bytes (encrypt_bytes (cf ()) (bytes_of_hex pw) (bytes_of_hex blk)))
     | _ -> Printf.printf "?? %s\n" line)
